@@ -382,7 +382,10 @@ macro_rules! backend_cases {
                 let rank = kv.g("rank");
                 let b2k = if kv.g("b2k") == 0 { 17 } else { kv.g("b2k") };
                 let big_scratch = || -> ScratchOwned<BE> { ScratchOwned::<BE>::alloc(1 << 22) };
-                let tb: usize = tb_of(&module, op, kv)?;
+                let tb: usize = match tb_of(&module, op, kv) {
+                    Some(t) => t,
+                    None => return crate::scratch_cases3::$modname::case(op, kv),
+                };
                 if kv.g("tbonly") == 1 {
                     return Some(format!("tb={tb}"));
                 }
